@@ -4,6 +4,7 @@ import (
 	"encoding/json"
 	"flag"
 	"fmt"
+	"go/ast"
 	"go/constant"
 	"go/types"
 	"reflect"
@@ -152,6 +153,16 @@ func runConformance(workDir string) *conformanceReport {
 	return rep
 }
 
+func pkgNameOf(fn *ssa.Function) string {
+	for fn != nil {
+		if fn.Pkg != nil {
+			return fn.Pkg.Pkg.Name()
+		}
+		fn = fn.Parent()
+	}
+	return ""
+}
+
 // gWorkDir is the scratch directory of this run (SMT scripts, replay files).
 var gWorkDir string
 
@@ -222,6 +233,47 @@ func main() {
 	}
 	prop := *flagProp
 
+	// functions that execute a call carrying an "everywhere" clause of this property (directly or through helpers without a contract,
+	// which are verified inlined) are targets of the property even if their own contract does not mention it
+	everywhereTargets := map[string]bool{}
+	if prop != "" {
+		var callers map[string]map[string]bool
+		for _, ss := range C.Everywhere {
+			tagged := false
+			for _, cl := range ss.Requires {
+				if hasProp(cl.Props, prop) {
+					tagged = true
+				}
+			}
+			if !tagged {
+				continue
+			}
+			if callers == nil {
+				callers, _ = eng.callGraph()
+			}
+			seen := map[string]bool{}
+			var up func(f string)
+			up = func(f string) {
+				if seen[f] {
+					return
+				}
+				seen[f] = true
+				if ct := C.ByName[f]; ct != nil && ct.Kind == "func" {
+					everywhereTargets[f] = true
+					return
+				}
+				for c := range callers[f] {
+					up(c)
+				}
+			}
+			for c := range callers[ss.Callee] {
+				if fn := eng.fns[c]; fn != nil && (ss.InPkg == "" || pkgNameOf(fn) == ss.InPkg) {
+					up(c)
+				}
+			}
+		}
+	}
+
 	// select functions
 	var targets []*Contract
 	var toolErrs []string
@@ -240,7 +292,7 @@ func main() {
 		if *flagFn != "" && !fnMatch(ct.Name) {
 			continue
 		}
-		if prop != "" && !contractMentions(ct, prop) {
+		if prop != "" && !contractMentions(ct, prop) && !everywhereTargets[ct.Name] {
 			continue
 		}
 		targets = append(targets, ct)
@@ -559,5 +611,126 @@ func (e *Engine) structural(d *Decl) (bool, string) {
 		}
 		return true, ""
 	}
+	if kind == "callers-under-contract" {
+		// (structural callers-under-contract "<callee>" "<allowed callers, space separated>"): every function of the repository that can
+		// reach a call of <callee> does so under verification -- it has a contract, or it is an unexported helper whose callers all do
+		// (such helpers are inlined into their verified callers). A function outside that set that calls <callee> -- a new command,
+		// handler, goroutine or exported entry point -- would be a path the proofs never look at.
+		callee := d.SX.List[2].Atom
+		allowed := map[string]bool{}
+		for _, a := range strings.Fields(d.SX.List[3].Atom) {
+			allowed[a] = true
+		}
+		callers, addrTaken := e.callGraph()
+		if len(callers[callee]) == 0 {
+			return false, "nothing calls " + callee + " (contracts out of date?)"
+		}
+		state := map[string]int{} // 1 = in progress / ok, 2 = bad
+		var why string
+		var ok func(f string, via string) bool
+		ok = func(f, via string) bool {
+			if st, seen := state[f]; seen {
+				return st == 1
+			}
+			state[f] = 1
+			if allowed[f] {
+				return true
+			}
+			if ct := e.C.ByName[f]; ct != nil {
+				return true
+			}
+			fn := e.fns[f]
+			bad := func(msg string) bool {
+				state[f] = 2
+				if why == "" {
+					why = fmt.Sprintf("%s %s and reaches %s (%s) without a contract", f, msg, callee, via)
+				}
+				return false
+			}
+			if fn == nil {
+				return bad("is unknown")
+			}
+			if addrTaken[f] {
+				return bad("is used as a function value (handler, callback or goroutine body)")
+			}
+			if fn.Parent() == nil && (ast.IsExported(fn.Name()) || fn.Name() == "main" || fn.Name() == "init") {
+				return bad("is an entry point")
+			}
+			for c := range callers[f] {
+				if !ok(c, f+" <- "+via) {
+					state[f] = 2
+					return false
+				}
+			}
+			return true // dead code when nobody calls it
+		}
+		for c := range callers[callee] {
+			if !ok(c, callee) {
+				return false, why
+			}
+		}
+		return true, ""
+	}
 	return false, "unknown structural check " + kind
+}
+
+// callGraph: static callers of every function (calls, go, defer, immediately invoked closures) inside the repository packages,
+// and the functions that are used as values.
+func (e *Engine) callGraph() (map[string]map[string]bool, map[string]bool) {
+	callers := map[string]map[string]bool{}
+	addrTaken := map[string]bool{}
+	add := func(callee, caller string) {
+		if callers[callee] == nil {
+			callers[callee] = map[string]bool{}
+		}
+		callers[callee][caller] = true
+	}
+	for name, fn := range e.fns {
+		if fn.Blocks == nil || !e.inRepo(fn) {
+			continue
+		}
+		for _, b := range fn.Blocks {
+			for _, in := range b.Instrs {
+				var cc *ssa.CallCommon
+				switch x := in.(type) {
+				case *ssa.Call:
+					cc = &x.Call
+				case *ssa.Go:
+					cc = &x.Call
+				case *ssa.Defer:
+					cc = &x.Call
+				}
+				calleeVal := ssa.Value(nil)
+				if cc != nil {
+					add(e.calleeName(cc), name)
+					if !cc.IsInvoke() {
+						calleeVal = cc.Value
+					}
+				}
+				mcIn, _ := in.(*ssa.MakeClosure)
+				for _, op := range in.Operands(nil) {
+					if op == nil || *op == nil || *op == calleeVal {
+						continue
+					}
+					if mcIn != nil && *op == mcIn.Fn {
+						continue // judged below by how the closure value is used
+					}
+					if v, ok := (*op).(*ssa.Function); ok {
+						addrTaken[fnName(v)] = true
+					}
+				}
+				if mc := mcIn; mc != nil {
+					if f, ok := mc.Fn.(*ssa.Function); ok {
+						if rs := mc.Referrers(); rs != nil && len(*rs) == 1 {
+							if ci, isCall := (*rs)[0].(ssa.CallInstruction); isCall && ci.Common().Value == ssa.Value(mc) {
+								continue
+							}
+						}
+						addrTaken[fnName(f)] = true
+					}
+				}
+			}
+		}
+	}
+	return callers, addrTaken
 }
